@@ -126,6 +126,45 @@ def check_roundtrip(inp):
     return None
 
 
+def check_sequence(inp):
+  """Deserialisation is a function of the bytes of THIS call: after a call that failed (truncated bytes, trailing bytes, a
+  string-array / structured leaf written by another producer) a valid blob still gives back its value."""
+  import msgpack
+  from fedjax.core import serialization as ser
+  from fedjax.core import sqlite_federated_data as sq
+  good = {'w': np.arange(6, dtype=np.float32).reshape(2, 3), 'n': 3, 'ids': np.array([b'a', b'bc'], dtype=object)}
+  blob = ser.msgpack_serialize(good)
+  code = [c for c in range(1, 8)]
+  bads = {'truncated': blob[:len(blob) // 2], 'trailing': blob + b'\x01', 'empty': b'',
+          'two_values': blob + blob,
+          'foreign_ext': msgpack.packb({'leaf': msgpack.ExtType(1, b'not an array')}, use_bin_type=True)}
+  for step in inp['sequence']:
+    if step == 'good':
+      try:
+        back = ser.msgpack_deserialize(blob)
+      except Exception as e:  # pylint: disable=broad-except
+        return f'a valid blob is rejected after the calls {inp["sequence"]}: {type(e).__name__}: {str(e)[:100]}'
+      m = same(good, back)
+      if m:
+        return f'after the calls {inp["sequence"]} a valid blob deserialises to something else: {m} (got {back!r:.80})'
+      z = sq.decompress_and_deserialize(__import__('zlib').compress(blob))
+      if same(good, z):
+        return f'decompress_and_deserialize after {inp["sequence"]}: {same(good, z)}'
+    else:
+      try:
+        back = ser.msgpack_deserialize(bads[step])
+      except Exception:  # rejected: fine
+        continue
+      if step in ('trailing', 'two_values', 'truncated', 'empty'):
+        return f'{step} bytes were accepted (returned {back!r:.60}) instead of being rejected'
+
+
+def sweep_sequence(tier, seed):
+  for bad in ('truncated', 'trailing', 'empty', 'two_values', 'foreign_ext'):
+    yield dict(sequence=['good', bad, 'good'])
+    yield dict(sequence=[bad, bad, 'good', 'good'])
+
+
 def sweep_roundtrip(tier, seed):
   for dt in DTYPES:
     for sh in SHAPES:
@@ -210,7 +249,8 @@ def sweep_axioms(tier, seed):
 
 
 CHECKERS = {'axioms': (check_axioms, sweep_axioms), 'roundtrip': (check_roundtrip, sweep_roundtrip),
-            'sqlite': (check_sqlite, lambda t, s: [dict(n=0), dict(n=1), dict(n=4)])}
+            'sqlite': (check_sqlite, lambda t, s: [dict(n=0), dict(n=1), dict(n=4)]),
+            'sequence': (check_sequence, sweep_sequence)}
 
 if __name__ == '__main__':
   sys.exit(common.main(CHECKERS))
